@@ -607,7 +607,10 @@ pub fn check_c12(prog: &NetProgram, res: &NetResult, info: &mut RunInfo) {
         }
         info.probe("invalid_node_rejected");
     }
-    let end_faults = prog.modules.iter().any(|m| m.end_err || m.panic_at == 200 || m.beats.iter().any(|b| b.acts.iter().any(|a| matches!(a, Act::Panic))));
+    let end_faults = prog.inner_end_err || prog.modules.iter().any(|m| m.end_err || m.panic_at == 200 || m.beats.iter().any(|b| b.acts.iter().any(|a| matches!(a, Act::Panic))));
+    if prog.inner_end_err {
+        info.probe("inner_application_fails_at_the_end");
+    }
     if res.ok.is_none() {
         if res.started && !end_faults {
             info.violate(Violation::new("C12", "run-error", format!("fault-free run returned errors {:?}", res.errors)));
